@@ -624,6 +624,7 @@ func c14CloseStormOne(ctx *Ctx, cs *c14CloseStorm) {
 
 func c14Storms(ctx *Ctx) {
 	c14AllocStorms(ctx)
+	c14FlushStorms(ctx)
 	// Close calls that really overlap (no yield point separates the steps of the
 	// test-and-set on `done`, so schedule replay cannot interleave there)
 	for k, nk := 0, ctx.N(4, 16); k < nk; k++ {
